@@ -137,14 +137,20 @@ def main(argv):
     if fid_info is not None and not fid_info.get('ok', False):
         print('FIDELITY-GUARD failed (extractor fault, not a violation): %s' % json.dumps(fid_info)[:800])
     wall = time.time() - t_start
-    discharged = len(by[OB.PROVED]) + len(known_hit)
+    # bounded stand-ins and listed known findings are reported separately and never counted as discharged proof obligations
+    known_ids_hit = {g['id'] for g in known_hit}
+    proof_goals = [g for g in goals if g['backend'] != 'bounded' and g['id'] not in known_ids_hit]
+    bounded_goals = [g for g in goals if g['backend'] == 'bounded']
+    discharged = len([g for g in proof_goals if g['status'] == OB.PROVED])
     samples = [dict(id=g['id'], status=g['status'], backend=g['backend'], solver=g['solver'], seconds=g['seconds'], kind=g['kind'])
                for g in goals[:12]]
     ev = {
         'property_id': pid, 'tier': tier, 'seed': seed, 'level': 'proof',
         'coverage': {
-            'obligations': n_total,
+            'obligations': len(proof_goals),
             'discharged': discharged,
+            'bounded_checks': [dict(id=g['id'], status=g['status'], detail=g['detail'][:300]) for g in bounded_goals],
+            'bounded_note': 'bounded checks are stand-ins with a stated bound; they are not proofs and are not included in obligations/discharged',
             'checker_cmd': 'python3-vt /verif/gm2v/check.py %s %s  (back end B: z3 %s via python API, fallbacks /usr/bin/z3 4.8.12 and cvc5; back end A: cbmc 6.11 + goto-instrument --dfcc)' % (pid, tier, __import__('z3').get_version_string()),
             'trusted_base': sorted(set(list(GLOBAL_ASSUMPTIONS.keys()) + ['python3 interpreter', 'g++ 12 (replay/fidelity only)'])),
             'functions_under_contract': sorted({'%s:%s' % (f, n) for o in obs for (f, n) in o.fns}),
